@@ -151,21 +151,21 @@ SPECS["C20"] = {
 
 # --- map / set ---------------------------------------------------------------
 SPECS["C04"] = {
-    "quick": [F("maptree", MA + ",o_ref,o_handle", sparse=1), M("maptree", 3, MA + ",o_ref,o_handle", quq=1, cs=2), M("maptree", 3, MA + ",o_ref", quq=1, tail2=2), M("maptree", 3, MA + ",o_ref", quq=2), M("maptree", 3, MA + ",o_ref", deep=3), M("maptree", 5, MA + ",o_ref", audit=1), M("maptree", 5, MAW + ",o_ref", pay="track"), F("maptree", MA + ",o_ref", pay="track", sizes="9,17,33"), F("maptree", MA + ",o_ref"), F("maptree", MA + ",o_ref", pay="heap", hint=0, sizes="9,17,33,65"), M("maptree", 6, MA + ",o_ref"), M("maptree", 4, MAW + ",o_ref", pay="heap", hint=0), M("maptree", 4, MAW + ",o_ref", hint=1),
+    "quick": [SW("bigtree", sys="maptree", sizes="500,1023,1024,1025,3000,10000", label="bigtree maptree<u32,u32>: 450+ long histories on trees of 500 ... 10000 (thorough 65537) entries, hints 0/1/8/9/1025: fill, thin out to 0/1/10/50/100 %, clear, refill with twice as many, drain"), F("maptree", MA + ",o_ref,o_handle", sparse=1), M("maptree", 3, MA + ",o_ref,o_handle", quq=1, cs=2), M("maptree", 3, MA + ",o_ref", quq=1, tail2=2), M("maptree", 3, MA + ",o_ref", quq=2), M("maptree", 3, MA + ",o_ref", deep=3), M("maptree", 5, MA + ",o_ref", audit=1), M("maptree", 5, MAW + ",o_ref", pay="track"), F("maptree", MA + ",o_ref", pay="track", sizes="9,17,33"), F("maptree", MA + ",o_ref"), F("maptree", MA + ",o_ref", pay="heap", hint=0, sizes="9,17,33,65"), M("maptree", 6, MA + ",o_ref"), M("maptree", 4, MAW + ",o_ref", pay="heap", hint=0), M("maptree", 4, MAW + ",o_ref", hint=1),
               M("maptree", 10, "del,clear,o_ref", mode="shape"), M("maptree", 10, "del,clear,o_ref", mode="shape", hint=9), M("maptree", 3, MA + ",o_ref", mode="full"), M("maptree", 3, MAW + ",o_ref", hint=64)],
-    "thorough": [F("maptree", MA + ",o_ref,o_handle", sparse=1), M("maptree", 4, MA + ",o_ref,o_handle", quq=1, cs=2), M("maptree", 3, MA + ",o_ref,o_handle", quq=2, cs=2), M("maptree", 3, MA + ",o_ref,o_handle", quq=1, cs=2), M("maptree", 4, MAW + ",o_ref", quq=1, tail2=2), M("maptree", 14, "del,clear,o_ref", mode="shape", cap_s=1500), M("maptree", 3, MAW + ",o_ref", quq=2), M("maptree", 3, MAW + ",o_ref", deep=3), M("maptree", 5, MA + ",o_ref", audit=1), M("maptree", 5, MAW + ",o_ref", pay="track"), F("maptree", MA + ",o_ref", pay="track", sizes="9,17,33"), F("maptree", MA + ",o_ref"), F("maptree", MA + ",o_ref", pay="heap", hint=0, sizes="9,17,33,65"), M("maptree", 7, MA + ",o_ref"), M("maptree", 6, MA + ",o_ref", pay="heap", hint=0), M("maptree", 5, MAW + ",o_ref", hint=1),
+    "thorough": [SW("bigtree", sys="maptree", sizes="500,1023,1024,1025,3000,10000,65537", label="bigtree maptree<u32,u32>: 450+ long histories on trees of 500 ... 10000 (thorough 65537) entries, hints 0/1/8/9/1025: fill, thin out to 0/1/10/50/100 %, clear, refill with twice as many, drain"), F("maptree", MA + ",o_ref,o_handle", sparse=1), M("maptree", 4, MA + ",o_ref,o_handle", quq=1, cs=2), M("maptree", 3, MA + ",o_ref,o_handle", quq=2, cs=2), M("maptree", 3, MA + ",o_ref,o_handle", quq=1, cs=2), M("maptree", 4, MAW + ",o_ref", quq=1, tail2=2), M("maptree", 14, "del,clear,o_ref", mode="shape", cap_s=1500), M("maptree", 3, MAW + ",o_ref", quq=2), M("maptree", 3, MAW + ",o_ref", deep=3), M("maptree", 5, MA + ",o_ref", audit=1), M("maptree", 5, MAW + ",o_ref", pay="track"), F("maptree", MA + ",o_ref", pay="track", sizes="9,17,33"), F("maptree", MA + ",o_ref"), F("maptree", MA + ",o_ref", pay="heap", hint=0, sizes="9,17,33,65"), M("maptree", 7, MA + ",o_ref"), M("maptree", 6, MA + ",o_ref", pay="heap", hint=0), M("maptree", 5, MAW + ",o_ref", hint=1),
                  M("maptree", 12, "del,clear,o_ref", mode="shape"), M("maptree", 12, "del,clear,o_ref", mode="shape", hint=9), M("maptree", 4, "del,clear,o_ref", mode="full", max_states=30000000, cap_s=1200), M("maptree", 5, MAW + ",o_ref", hint=64)],
 }
 SPECS["C05"] = {
-    "quick": [F("settree", MA + ",o_ref,o_handle", sparse=1), M("settree", 3, MA + ",o_ref,o_handle", quq=1, cs=2), M("settree", 3, MA + ",o_ref", quq=1, tail2=2), M("settree", 3, MA + ",o_ref", quq=2), M("settree", 3, MA + ",o_ref", deep=3), M("settree", 5, MA + ",o_ref", audit=1), M("settree", 5, MAW + ",o_ref", pay="track"), F("settree", MA + ",o_ref", pay="track", sizes="9,17,33"), F("settree", MA + ",o_ref"), F("settree", MA + ",o_ref", pay="heap", hint=0, sizes="9,17,33,65"), M("settree", 6, MA + ",o_ref"), M("settree", 4, MAW + ",o_ref", pay="heap", hint=0), M("settree", 6, MA + ",o_ref", pay="bare", hint=1),
+    "quick": [SW("bigtree", sys="settree", sizes="500,1023,1024,1025,3000,10000", label="bigtree settree<u32,u32>: 450+ long histories on trees of 500 ... 10000 (thorough 65537) entries, hints 0/1/8/9/1025: fill, thin out to 0/1/10/50/100 %, clear, refill with twice as many, drain"), F("settree", MA + ",o_ref,o_handle", sparse=1), M("settree", 3, MA + ",o_ref,o_handle", quq=1, cs=2), M("settree", 3, MA + ",o_ref", quq=1, tail2=2), M("settree", 3, MA + ",o_ref", quq=2), M("settree", 3, MA + ",o_ref", deep=3), M("settree", 5, MA + ",o_ref", audit=1), M("settree", 5, MAW + ",o_ref", pay="track"), F("settree", MA + ",o_ref", pay="track", sizes="9,17,33"), F("settree", MA + ",o_ref"), F("settree", MA + ",o_ref", pay="heap", hint=0, sizes="9,17,33,65"), M("settree", 6, MA + ",o_ref"), M("settree", 4, MAW + ",o_ref", pay="heap", hint=0), M("settree", 6, MA + ",o_ref", pay="bare", hint=1),
               M("settree", 10, "del,clear,o_ref", mode="shape"), M("settree", 3, MA + ",o_ref", mode="full")],
-    "thorough": [F("settree", MA + ",o_ref,o_handle", sparse=1), M("settree", 4, MA + ",o_ref,o_handle", quq=1, cs=2), M("settree", 3, MA + ",o_ref,o_handle", quq=2, cs=2), M("settree", 3, MA + ",o_ref,o_handle", quq=1, cs=2), M("settree", 4, MAW + ",o_ref", quq=1, tail2=2), M("settree", 14, "del,clear,o_ref", mode="shape", cap_s=1500), M("settree", 3, MAW + ",o_ref", quq=2), M("settree", 3, MAW + ",o_ref", deep=3), M("settree", 5, MA + ",o_ref", audit=1), M("settree", 5, MAW + ",o_ref", pay="track"), F("settree", MA + ",o_ref", pay="track", sizes="9,17,33"), F("settree", MA + ",o_ref"), F("settree", MA + ",o_ref", pay="heap", hint=0, sizes="9,17,33,65"), M("settree", 7, MA + ",o_ref"), M("settree", 6, MA + ",o_ref", pay="heap", hint=0), M("settree", 6, MA + ",o_ref", pay="bare", hint=1), M("settree", 5, MAW + ",o_ref", hint=64),
+    "thorough": [SW("bigtree", sys="settree", sizes="500,1023,1024,1025,3000,10000,65537", label="bigtree settree<u32,u32>: 450+ long histories on trees of 500 ... 10000 (thorough 65537) entries, hints 0/1/8/9/1025: fill, thin out to 0/1/10/50/100 %, clear, refill with twice as many, drain"), F("settree", MA + ",o_ref,o_handle", sparse=1), M("settree", 4, MA + ",o_ref,o_handle", quq=1, cs=2), M("settree", 3, MA + ",o_ref,o_handle", quq=2, cs=2), M("settree", 3, MA + ",o_ref,o_handle", quq=1, cs=2), M("settree", 4, MAW + ",o_ref", quq=1, tail2=2), M("settree", 14, "del,clear,o_ref", mode="shape", cap_s=1500), M("settree", 3, MAW + ",o_ref", quq=2), M("settree", 3, MAW + ",o_ref", deep=3), M("settree", 5, MA + ",o_ref", audit=1), M("settree", 5, MAW + ",o_ref", pay="track"), F("settree", MA + ",o_ref", pay="track", sizes="9,17,33"), F("settree", MA + ",o_ref"), F("settree", MA + ",o_ref", pay="heap", hint=0, sizes="9,17,33,65"), M("settree", 7, MA + ",o_ref"), M("settree", 6, MA + ",o_ref", pay="heap", hint=0), M("settree", 6, MA + ",o_ref", pay="bare", hint=1), M("settree", 5, MAW + ",o_ref", hint=64),
                  M("settree", 12, "del,clear,o_ref", mode="shape", hint=9), M("settree", 4, "del,clear,o_ref", mode="full", max_states=30000000, cap_s=1200)],
 }
 SPECS["C08"] = {
-    "quick": [F("maptree", MA + ",o_ref,o_handle", sparse=1), F("settree", MA + ",o_ref,o_handle", sparse=1, hint=9), M("maptree", 3, MA + ",o_ref,o_handle", quq=1, cs=2), M("settree", 3, MA + ",o_ref,o_handle", quq=1, cs=2), M("maptree", 3, MA + ",o_handle,o_ref", quq=1, tail2=2), M("settree", 3, MA + ",o_handle,o_ref", quq=1, tail2=2), M("maptree", 3, MA + ",o_handle,o_ref", quq=1, tail2=1), M("settree", 3, MA + ",o_handle,o_ref", quq=1, tail2=1), M("maptree", 3, MA + ",o_handle,o_ref", quq=2), M("settree", 3, MA + ",o_handle,o_ref", quq=2), M("maptree", 3, MA + ",o_handle,o_ref", deep=3), M("settree", 3, MA + ",o_handle,o_ref", deep=3), M("maptree", 5, MA + ",o_handle", audit=1), M("settree", 5, MA + ",o_handle", audit=1), M("settree", 4, MAW + ",o_handle,o_ref", pay="track"), F("maptree", MA + ",o_handle"), F("settree", MA + ",o_handle"), M("maptree", 6, MA + ",o_handle"), M("settree", 6, MA + ",o_handle"), M("maptree", 4, MAW + ",o_handle,o_ref", pay="heap"), M("settree", 4, MAW + ",o_handle,o_ref"),
+    "quick": [SW("bigtree", sys="settree", sizes="500,1023,1024,1025,3000,10000", label="bigtree settree<u32,u32>: 450+ long histories on trees of 500 ... 10000 (thorough 65537) entries, hints 0/1/8/9/1025: fill, thin out to 0/1/10/50/100 %, clear, refill with twice as many, drain"), SW("bigtree", sys="maptree", sizes="500,1023,1024,1025,3000,10000", label="bigtree maptree<u32,u32>: 450+ long histories on trees of 500 ... 10000 (thorough 65537) entries, hints 0/1/8/9/1025: fill, thin out to 0/1/10/50/100 %, clear, refill with twice as many, drain"), F("maptree", MA + ",o_ref,o_handle", sparse=1), F("settree", MA + ",o_ref,o_handle", sparse=1, hint=9), M("maptree", 3, MA + ",o_ref,o_handle", quq=1, cs=2), M("settree", 3, MA + ",o_ref,o_handle", quq=1, cs=2), M("maptree", 3, MA + ",o_handle,o_ref", quq=1, tail2=2), M("settree", 3, MA + ",o_handle,o_ref", quq=1, tail2=2), M("maptree", 3, MA + ",o_handle,o_ref", quq=1, tail2=1), M("settree", 3, MA + ",o_handle,o_ref", quq=1, tail2=1), M("maptree", 3, MA + ",o_handle,o_ref", quq=2), M("settree", 3, MA + ",o_handle,o_ref", quq=2), M("maptree", 3, MA + ",o_handle,o_ref", deep=3), M("settree", 3, MA + ",o_handle,o_ref", deep=3), M("maptree", 5, MA + ",o_handle", audit=1), M("settree", 5, MA + ",o_handle", audit=1), M("settree", 4, MAW + ",o_handle,o_ref", pay="track"), F("maptree", MA + ",o_handle"), F("settree", MA + ",o_handle"), M("maptree", 6, MA + ",o_handle"), M("settree", 6, MA + ",o_handle"), M("maptree", 4, MAW + ",o_handle,o_ref", pay="heap"), M("settree", 4, MAW + ",o_handle,o_ref"),
               M("maptree", 10, "delh,clear,o_handle", mode="shape"), M("settree", 10, "delh,clear,o_handle", mode="shape", hint=9)],
-    "thorough": [F("maptree", MA + ",o_ref,o_handle", sparse=1), F("settree", MA + ",o_ref,o_handle", sparse=1, hint=9), M("maptree", 3, MA + ",o_ref,o_handle", quq=1, cs=2), M("settree", 3, MA + ",o_ref,o_handle", quq=1, cs=2), M("maptree", 4, MAW + ",o_handle,o_ref", quq=2, tail2=2), M("maptree", 4, MAW + ",o_handle,o_ref", quq=1, tail2=2), M("settree", 4, MAW + ",o_handle,o_ref", quq=1, tail2=2), M("maptree", 13, "delh,clear,o_handle", mode="shape", cap_s=1500), M("settree", 13, "delh,clear,o_handle", mode="shape", hint=9, cap_s=1500), M("maptree", 3, MAW + ",o_handle,o_ref", quq=1, tail2=1), M("settree", 3, MAW + ",o_handle,o_ref", quq=1, tail2=1), M("maptree", 4, MAW + ",o_handle,o_ref", quq=2), M("settree", 4, MAW + ",o_handle,o_ref", quq=2), M("maptree", 3, MAW + ",o_handle,o_ref", quq=3), M("maptree", 3, MAW + ",o_handle,o_ref", quq=2), M("settree", 3, MAW + ",o_handle,o_ref", quq=2), M("maptree", 4, MAW + ",o_handle,o_ref", deep=3), M("settree", 4, MAW + ",o_handle,o_ref", deep=3), M("maptree", 3, MAW + ",o_handle,o_ref", deep=3), M("settree", 3, MAW + ",o_handle,o_ref", deep=3), M("maptree", 5, MA + ",o_handle", audit=1), M("settree", 5, MA + ",o_handle", audit=1), M("settree", 4, MAW + ",o_handle,o_ref", pay="track"), F("maptree", MA + ",o_handle"), F("settree", MA + ",o_handle"), M("maptree", 7, MA + ",o_handle"), M("settree", 7, MA + ",o_handle"), M("maptree", 5, MAW + ",o_handle,o_ref", pay="heap"), M("settree", 5, MAW + ",o_handle,o_ref"),
+    "thorough": [SW("bigtree", sys="settree", sizes="500,1023,1024,1025,3000,10000,65537", label="bigtree settree<u32,u32>: 450+ long histories on trees of 500 ... 10000 (thorough 65537) entries, hints 0/1/8/9/1025: fill, thin out to 0/1/10/50/100 %, clear, refill with twice as many, drain"), SW("bigtree", sys="maptree", sizes="500,1023,1024,1025,3000,10000,65537", label="bigtree maptree<u32,u32>: 450+ long histories on trees of 500 ... 10000 (thorough 65537) entries, hints 0/1/8/9/1025: fill, thin out to 0/1/10/50/100 %, clear, refill with twice as many, drain"), F("maptree", MA + ",o_ref,o_handle", sparse=1), F("settree", MA + ",o_ref,o_handle", sparse=1, hint=9), M("maptree", 3, MA + ",o_ref,o_handle", quq=1, cs=2), M("settree", 3, MA + ",o_ref,o_handle", quq=1, cs=2), M("maptree", 4, MAW + ",o_handle,o_ref", quq=2, tail2=2), M("maptree", 4, MAW + ",o_handle,o_ref", quq=1, tail2=2), M("settree", 4, MAW + ",o_handle,o_ref", quq=1, tail2=2), M("maptree", 13, "delh,clear,o_handle", mode="shape", cap_s=1500), M("settree", 13, "delh,clear,o_handle", mode="shape", hint=9, cap_s=1500), M("maptree", 3, MAW + ",o_handle,o_ref", quq=1, tail2=1), M("settree", 3, MAW + ",o_handle,o_ref", quq=1, tail2=1), M("maptree", 4, MAW + ",o_handle,o_ref", quq=2), M("settree", 4, MAW + ",o_handle,o_ref", quq=2), M("maptree", 3, MAW + ",o_handle,o_ref", quq=3), M("maptree", 3, MAW + ",o_handle,o_ref", quq=2), M("settree", 3, MAW + ",o_handle,o_ref", quq=2), M("maptree", 4, MAW + ",o_handle,o_ref", deep=3), M("settree", 4, MAW + ",o_handle,o_ref", deep=3), M("maptree", 3, MAW + ",o_handle,o_ref", deep=3), M("settree", 3, MAW + ",o_handle,o_ref", deep=3), M("maptree", 5, MA + ",o_handle", audit=1), M("settree", 5, MA + ",o_handle", audit=1), M("settree", 4, MAW + ",o_handle,o_ref", pay="track"), F("maptree", MA + ",o_handle"), F("settree", MA + ",o_handle"), M("maptree", 7, MA + ",o_handle"), M("settree", 7, MA + ",o_handle"), M("maptree", 5, MAW + ",o_handle,o_ref", pay="heap"), M("settree", 5, MAW + ",o_handle,o_ref"),
                  M("maptree", 12, "delh,clear,o_handle", mode="shape"), M("settree", 12, "delh,clear,o_handle", mode="shape", hint=9)],
 }
 SPECS["C09"] = {
@@ -177,25 +177,25 @@ SPECS["C17"] = {
     "thorough": [M("maptree", 14, "del,clear,o_hstab", mode="shape", cap_s=1500), M("settree", 14, "del,clear,o_hstab", mode="shape", hint=9, cap_s=1500), M("maptree", 3, MA + ",o_hstab,o_handle", quq=2), M("settree", 3, MA + ",o_hstab,o_handle", quq=2), F("maptree", MA + ",o_hstab"), F("settree", MA + ",o_hstab", hint=9), M("maptree", 7, MA + ",o_hstab"), M("settree", 7, MA + ",o_hstab"), M("maptree", 12, "del,clear,o_hstab", mode="shape"), M("settree", 12, "del,clear,o_hstab", mode="shape", hint=9), M("maptree", 5, MAW + ",o_hstab", pay="heap", hint=1)],
 }
 SPECS["C02"] = {
-    "quick": [K("ktree", 5, 1, "get,o_rb"), F("maptree", MA + ",o_rb"), F("settree", MA + ",o_rb"), F("ktree", "fl,fle,fleby,get,o_rb"), K("ktree", 4, 2, KA + ",o_rb"), M("maptree", 6, MA + ",o_rb,histogram"), M("settree", 6, MA + ",o_rb,histogram"), K("ktree", 3, 3, KA + ",o_rb"), M("maptree", 10, "del,clear,o_rb,histogram", mode="shape"), M("settree", 10, "del,clear,o_rb,histogram", mode="shape"), K("ktree", 8, 0, "fleby,clear,o_rb", mode="shape")],
-    "thorough": [M("maptree", 14, "del,clear,o_rb,histogram", mode="shape", cap_s=1500), M("settree", 14, "del,clear,o_rb,histogram", mode="shape", hint=9, cap_s=1500), K("ktree", 5, 1, "get,o_rb"), F("maptree", MA + ",o_rb"), F("settree", MA + ",o_rb"), F("ktree", "fl,fle,fleby,get,o_rb"), M("maptree", 7, MA + ",o_rb,histogram"), M("settree", 7, MA + ",o_rb,histogram"), K("ktree", 4, 4, KA + ",o_rb"), K("ktree", 5, 2, KA + ",o_rb", cap_s=900),
+    "quick": [SW("bigtree", sys="settree", sizes="500,1023,1024,1025,3000,10000", label="bigtree settree<u32,u32>: 450+ long histories on trees of 500 ... 10000 (thorough 65537) entries, hints 0/1/8/9/1025: fill, thin out to 0/1/10/50/100 %, clear, refill with twice as many, drain"), SW("bigtree", sys="maptree", sizes="500,1023,1024,1025,3000,10000", label="bigtree maptree<u32,u32>: 450+ long histories on trees of 500 ... 10000 (thorough 65537) entries, hints 0/1/8/9/1025: fill, thin out to 0/1/10/50/100 %, clear, refill with twice as many, drain"), K("ktree", 5, 1, "get,o_rb"), F("maptree", MA + ",o_rb"), F("settree", MA + ",o_rb"), F("ktree", "fl,fle,fleby,get,o_rb"), K("ktree", 4, 2, KA + ",o_rb"), M("maptree", 6, MA + ",o_rb,histogram"), M("settree", 6, MA + ",o_rb,histogram"), K("ktree", 3, 3, KA + ",o_rb"), M("maptree", 10, "del,clear,o_rb,histogram", mode="shape"), M("settree", 10, "del,clear,o_rb,histogram", mode="shape"), K("ktree", 8, 0, "fleby,clear,o_rb", mode="shape")],
+    "thorough": [SW("bigtree", sys="settree", sizes="500,1023,1024,1025,3000,10000,65537", label="bigtree settree<u32,u32>: 450+ long histories on trees of 500 ... 10000 (thorough 65537) entries, hints 0/1/8/9/1025: fill, thin out to 0/1/10/50/100 %, clear, refill with twice as many, drain"), SW("bigtree", sys="maptree", sizes="500,1023,1024,1025,3000,10000,65537", label="bigtree maptree<u32,u32>: 450+ long histories on trees of 500 ... 10000 (thorough 65537) entries, hints 0/1/8/9/1025: fill, thin out to 0/1/10/50/100 %, clear, refill with twice as many, drain"), M("maptree", 14, "del,clear,o_rb,histogram", mode="shape", cap_s=1500), M("settree", 14, "del,clear,o_rb,histogram", mode="shape", hint=9, cap_s=1500), K("ktree", 5, 1, "get,o_rb"), F("maptree", MA + ",o_rb"), F("settree", MA + ",o_rb"), F("ktree", "fl,fle,fleby,get,o_rb"), M("maptree", 7, MA + ",o_rb,histogram"), M("settree", 7, MA + ",o_rb,histogram"), K("ktree", 4, 4, KA + ",o_rb"), K("ktree", 5, 2, KA + ",o_rb", cap_s=900),
                  M("maptree", 12, "del,clear,o_rb", mode="shape"), M("settree", 12, "del,clear,o_rb", mode="shape", hint=9), K("ktree", 8, 1, "fle,fleby,clear,o_rb", mode="shape", cap_s=900)],
 }
 SPECS["C11"] = {
-    "quick": [M("maptree", 4, MA + ",o_arena", hint=1000), K("ktree", 3, 2, KA + ",o_arena", hint=1000), K("ktree", 5, 1, "get,o_arena"), F("maptree", MA + ",o_arena"), F("settree", MA + ",o_arena", hint=9), F("ktree", "fl,fle,fleby,get,o_arena"), F("maptree", MA + ",o_arena", hint=64, sizes="48,64,65,100"), K("ktree", 4, 2, KA + ",o_arena"), M("maptree", 6, MA + ",o_arena"), M("settree", 6, MA + ",o_arena"), K("ktree", 3, 3, KA + ",o_arena"),
+    "quick": [SW("bigtree", sys="settree", sizes="500,1023,1024,1025,3000,10000", label="bigtree settree<u32,u32>: 450+ long histories on trees of 500 ... 10000 (thorough 65537) entries, hints 0/1/8/9/1025: fill, thin out to 0/1/10/50/100 %, clear, refill with twice as many, drain"), SW("bigtree", sys="maptree", sizes="500,1023,1024,1025,3000,10000", label="bigtree maptree<u32,u32>: 450+ long histories on trees of 500 ... 10000 (thorough 65537) entries, hints 0/1/8/9/1025: fill, thin out to 0/1/10/50/100 %, clear, refill with twice as many, drain"), M("maptree", 4, MA + ",o_arena", hint=1000), K("ktree", 3, 2, KA + ",o_arena", hint=1000), K("ktree", 5, 1, "get,o_arena"), F("maptree", MA + ",o_arena"), F("settree", MA + ",o_arena", hint=9), F("ktree", "fl,fle,fleby,get,o_arena"), F("maptree", MA + ",o_arena", hint=64, sizes="48,64,65,100"), K("ktree", 4, 2, KA + ",o_arena"), M("maptree", 6, MA + ",o_arena"), M("settree", 6, MA + ",o_arena"), K("ktree", 3, 3, KA + ",o_arena"),
               M("maptree", 4, MA + ",o_arena", hint=0), M("settree", 4, MA + ",o_arena", hint=1), K("ktree", 3, 2, KA + ",o_arena", hint=0),
               M("maptree", 10, "del,clear,o_arena", mode="shape"), M("settree", 10, "del,clear,o_arena", mode="shape", hint=9), K("ktree", 8, 0, "fleby,clear,o_arena", mode="shape", hint=9),
               M("maptree", 4, MA + ",o_arena", hint=64), K("ktree", 3, 2, KA + ",o_arena", hint=64)],
-    "thorough": [M("maptree", 4, MA + ",o_arena", hint=1000), K("ktree", 3, 2, KA + ",o_arena", hint=1000), M("maptree", 14, "del,clear,o_arena", mode="shape", cap_s=1500), M("settree", 14, "del,clear,o_arena", mode="shape", hint=9, cap_s=1500), K("ktree", 5, 1, "get,o_arena"), F("maptree", MA + ",o_arena"), F("settree", MA + ",o_arena", hint=9), F("ktree", "fl,fle,fleby,get,o_arena"), F("maptree", MA + ",o_arena", hint=64, sizes="48,64,65,100"), M("maptree", 7, MA + ",o_arena"), M("settree", 7, MA + ",o_arena"), K("ktree", 4, 4, KA + ",o_arena"),
+    "thorough": [SW("bigtree", sys="settree", sizes="500,1023,1024,1025,3000,10000,65537", label="bigtree settree<u32,u32>: 450+ long histories on trees of 500 ... 10000 (thorough 65537) entries, hints 0/1/8/9/1025: fill, thin out to 0/1/10/50/100 %, clear, refill with twice as many, drain"), SW("bigtree", sys="maptree", sizes="500,1023,1024,1025,3000,10000,65537", label="bigtree maptree<u32,u32>: 450+ long histories on trees of 500 ... 10000 (thorough 65537) entries, hints 0/1/8/9/1025: fill, thin out to 0/1/10/50/100 %, clear, refill with twice as many, drain"), M("maptree", 4, MA + ",o_arena", hint=1000), K("ktree", 3, 2, KA + ",o_arena", hint=1000), M("maptree", 14, "del,clear,o_arena", mode="shape", cap_s=1500), M("settree", 14, "del,clear,o_arena", mode="shape", hint=9, cap_s=1500), K("ktree", 5, 1, "get,o_arena"), F("maptree", MA + ",o_arena"), F("settree", MA + ",o_arena", hint=9), F("ktree", "fl,fle,fleby,get,o_arena"), F("maptree", MA + ",o_arena", hint=64, sizes="48,64,65,100"), M("maptree", 7, MA + ",o_arena"), M("settree", 7, MA + ",o_arena"), K("ktree", 4, 4, KA + ",o_arena"),
                  M("maptree", 6, MA + ",o_arena", hint=0), M("settree", 6, MA + ",o_arena", hint=1), K("ktree", 4, 3, KA + ",o_arena", hint=1),
                  M("maptree", 12, "del,clear,o_arena", mode="shape"), M("maptree", 12, "del,clear,o_arena", mode="shape", hint=9), M("settree", 12, "del,clear,o_arena", mode="shape", hint=9),
                  K("ktree", 9, 1, "fleby,clear,o_arena", mode="shape", hint=9, cap_s=900), M("settree", 6, MA + ",o_arena", hint=64), K("ktree", 4, 3, KA + ",o_arena", hint=64)],
 }
 SPECS["C12"] = {
-    "quick": [M("maptree", 3, MA + ",o_twin,o_ref,o_handle", quq=1, cs=2), M("settree", 3, MA + ",o_twin,o_ref,o_handle", quq=1, cs=2), M("maptree", 3, MA + ",o_twin,o_ref,o_handle", quq=2), K("ktree", 2, 2, KA + ",o_twin,o_pred", quq=2), M("maptree", 3, MA + ",o_twin,o_ref,o_handle", deep=3), K("ktree", 2, 2, KA + ",o_twin,o_pred", deep=3), K("ktree", 3, 2, KA + ",o_twin,o_pred", audit=1), M("maptree", 4, MA + ",o_twin,o_ref,o_handle", audit=1), F("maptree", MA + ",o_twin,o_ref,o_handle"), F("settree", MA + ",o_twin,o_ref,o_handle", hint=9), F("maplist", MA + ",o_twin,o_ref,o_handle", sizes="9,17,33,65"), F("setlist", MA + ",o_twin,o_ref,o_handle", sizes="9,17,33,65"), F("ktree", "fl,fle,fleby,get,o_twin,o_pred"), F("klist", "fl,fle,fleby,get,o_twin,o_pred"), FS(0, 31, "o_query,o_twin"), FS(-7, 92, "o_query,o_twin"), K("klist", 3, 3, KA + ",o_twin,o_pred", tbase=252), K("ktree", 3, 3, KA + ",o_twin,o_pred", tbase=252), K("ktree", 4, 2, KA + ",o_twin,o_pred"), M("maptree", 4, MA + ",o_twin,o_ref,o_handle"), M("settree", 4, MA + ",o_twin,o_ref,o_handle"), M("maplist", 4, MA + ",o_twin,o_ref,o_handle"), M("setlist", 4, MA + ",o_twin,o_ref,o_handle"),
+    "quick": [SW("bigtree", sys="settree", sizes="500,1023,1024,1025,3000,10000", label="bigtree settree<u32,u32>: 450+ long histories on trees of 500 ... 10000 (thorough 65537) entries, hints 0/1/8/9/1025: fill, thin out to 0/1/10/50/100 %, clear, refill with twice as many, drain"), SW("bigtree", sys="maptree", sizes="500,1023,1024,1025,3000,10000", label="bigtree maptree<u32,u32>: 450+ long histories on trees of 500 ... 10000 (thorough 65537) entries, hints 0/1/8/9/1025: fill, thin out to 0/1/10/50/100 %, clear, refill with twice as many, drain"), M("maptree", 3, MA + ",o_twin,o_ref,o_handle", quq=1, cs=2), M("settree", 3, MA + ",o_twin,o_ref,o_handle", quq=1, cs=2), M("maptree", 3, MA + ",o_twin,o_ref,o_handle", quq=2), K("ktree", 2, 2, KA + ",o_twin,o_pred", quq=2), M("maptree", 3, MA + ",o_twin,o_ref,o_handle", deep=3), K("ktree", 2, 2, KA + ",o_twin,o_pred", deep=3), K("ktree", 3, 2, KA + ",o_twin,o_pred", audit=1), M("maptree", 4, MA + ",o_twin,o_ref,o_handle", audit=1), F("maptree", MA + ",o_twin,o_ref,o_handle"), F("settree", MA + ",o_twin,o_ref,o_handle", hint=9), F("maplist", MA + ",o_twin,o_ref,o_handle", sizes="9,17,33,65"), F("setlist", MA + ",o_twin,o_ref,o_handle", sizes="9,17,33,65"), F("ktree", "fl,fle,fleby,get,o_twin,o_pred"), F("klist", "fl,fle,fleby,get,o_twin,o_pred"), FS(0, 31, "o_query,o_twin"), FS(-7, 92, "o_query,o_twin"), K("klist", 3, 3, KA + ",o_twin,o_pred", tbase=252), K("ktree", 3, 3, KA + ",o_twin,o_pred", tbase=252), K("ktree", 4, 2, KA + ",o_twin,o_pred"), M("maptree", 4, MA + ",o_twin,o_ref,o_handle"), M("settree", 4, MA + ",o_twin,o_ref,o_handle"), M("maplist", 4, MA + ",o_twin,o_ref,o_handle"), M("setlist", 4, MA + ",o_twin,o_ref,o_handle"),
               K("ktree", 3, 2, KA + ",o_twin,o_pred"), K("klist", 3, 2, KA + ",o_twin,o_pred"), S(0, 31, SA + ",o_twin,o_query"), S(-7, 92, SA + ",o_twin,o_query"),
               M("maptree", 10, "del,clear,o_twin,o_ref", mode="shape"), M("settree", 10, "del,clear,o_twin,o_ref", mode="shape", hint=9), K("ktree", 8, 0, "fleby,clear,o_twin,o_pred", mode="shape")],
-    "thorough": [M("maptree", 3, MA + ",o_twin,o_ref,o_handle", quq=1, cs=2), M("settree", 3, MA + ",o_twin,o_ref,o_handle", quq=1, cs=2), M("maptree", 13, "del,clear,o_twin,o_ref", mode="shape", cap_s=1500), M("maptree", 3, MA + ",o_twin,o_ref,o_handle", quq=2), K("ktree", 2, 2, KA + ",o_twin,o_pred", quq=2), M("maptree", 3, MA + ",o_twin,o_ref,o_handle", deep=3), K("ktree", 2, 2, KA + ",o_twin,o_pred", deep=3), K("ktree", 3, 2, KA + ",o_twin,o_pred", audit=1), M("maptree", 4, MA + ",o_twin,o_ref,o_handle", audit=1), F("maptree", MA + ",o_twin,o_ref,o_handle"), F("settree", MA + ",o_twin,o_ref,o_handle", hint=9), F("maplist", MA + ",o_twin,o_ref,o_handle", sizes="9,17,33,65"), F("setlist", MA + ",o_twin,o_ref,o_handle", sizes="9,17,33,65"), F("ktree", "fl,fle,fleby,get,o_twin,o_pred"), F("klist", "fl,fle,fleby,get,o_twin,o_pred"), FS(0, 31, "o_query,o_twin"), FS(-7, 92, "o_query,o_twin"), K("klist", 3, 3, KA + ",o_twin,o_pred", tbase=252), K("ktree", 3, 3, KA + ",o_twin,o_pred", tbase=252), M("maptree", 6, MA + ",o_twin,o_ref,o_handle"), M("settree", 6, MA + ",o_twin,o_ref,o_handle"), M("maplist", 6, MAW + ",o_twin,o_ref,o_handle"), M("setlist", 6, MAW + ",o_twin,o_ref,o_handle"),
+    "thorough": [SW("bigtree", sys="settree", sizes="500,1023,1024,1025,3000,10000,65537", label="bigtree settree<u32,u32>: 450+ long histories on trees of 500 ... 10000 (thorough 65537) entries, hints 0/1/8/9/1025: fill, thin out to 0/1/10/50/100 %, clear, refill with twice as many, drain"), SW("bigtree", sys="maptree", sizes="500,1023,1024,1025,3000,10000,65537", label="bigtree maptree<u32,u32>: 450+ long histories on trees of 500 ... 10000 (thorough 65537) entries, hints 0/1/8/9/1025: fill, thin out to 0/1/10/50/100 %, clear, refill with twice as many, drain"), M("maptree", 3, MA + ",o_twin,o_ref,o_handle", quq=1, cs=2), M("settree", 3, MA + ",o_twin,o_ref,o_handle", quq=1, cs=2), M("maptree", 13, "del,clear,o_twin,o_ref", mode="shape", cap_s=1500), M("maptree", 3, MA + ",o_twin,o_ref,o_handle", quq=2), K("ktree", 2, 2, KA + ",o_twin,o_pred", quq=2), M("maptree", 3, MA + ",o_twin,o_ref,o_handle", deep=3), K("ktree", 2, 2, KA + ",o_twin,o_pred", deep=3), K("ktree", 3, 2, KA + ",o_twin,o_pred", audit=1), M("maptree", 4, MA + ",o_twin,o_ref,o_handle", audit=1), F("maptree", MA + ",o_twin,o_ref,o_handle"), F("settree", MA + ",o_twin,o_ref,o_handle", hint=9), F("maplist", MA + ",o_twin,o_ref,o_handle", sizes="9,17,33,65"), F("setlist", MA + ",o_twin,o_ref,o_handle", sizes="9,17,33,65"), F("ktree", "fl,fle,fleby,get,o_twin,o_pred"), F("klist", "fl,fle,fleby,get,o_twin,o_pred"), FS(0, 31, "o_query,o_twin"), FS(-7, 92, "o_query,o_twin"), K("klist", 3, 3, KA + ",o_twin,o_pred", tbase=252), K("ktree", 3, 3, KA + ",o_twin,o_pred", tbase=252), M("maptree", 6, MA + ",o_twin,o_ref,o_handle"), M("settree", 6, MA + ",o_twin,o_ref,o_handle"), M("maplist", 6, MAW + ",o_twin,o_ref,o_handle"), M("setlist", 6, MAW + ",o_twin,o_ref,o_handle"),
                  K("ktree", 4, 3, KA + ",o_twin,o_pred"), K("klist", 4, 4, KA + ",o_twin,o_pred"), S(0, 31, SA + ",o_twin,o_query", pop=3, cap_s=900), S(-7, 92, SA + ",o_twin,o_query"), S(0, 16, SA + ",o_twin,o_query"),
                  M("maptree", 12, "del,clear,o_twin,o_ref", mode="shape"), M("settree", 12, "del,clear,o_twin,o_ref", mode="shape", hint=9), K("ktree", 9, 1, "fleby,clear,o_twin,o_pred", mode="shape", cap_s=900)],
 }
@@ -239,13 +239,13 @@ SPECS["C18"] = {
 ALL_M = MAW + ",o_ref,o_handle,o_neigh,o_hstab"
 ALL_K = KA + ",o_pred,o_get,o_export"
 SPECS["C10"] = {
-    "quick": [F("maptree", ALL_M, crash=1, sparse=1), F("settree", ALL_M, crash=1, sparse=1), M("maptree", 3, ALL_M, crash=1, hint=1000), M("settree", 3, ALL_M, crash=1, hint=1000), K("ktree", 3, 2, ALL_K, crash=1, hint=1000), M("maptree", 3, ALL_M, crash=1, quq=2), M("settree", 3, ALL_M, crash=1, quq=2), K("ktree", 2, 2, ALL_K, crash=1, quq=2), M("maptree", 4, ALL_M, crash=1, pay="track"), M("settree", 4, ALL_M, crash=1, pay="track"), FS(0, 31, "o_query", crash=1), FS(-1000, 3095, "o_query", crash=1), K("ktree", 3, 3, ALL_K, crash=1, tbase=252), K("klist", 3, 3, ALL_K, crash=1, tbase=252), F("maptree", ALL_M, crash=1), F("settree", ALL_M, crash=1), F("ktree", "fl,fle,fleby,get,o_pred,o_get,o_export", crash=1), K("ktree", 3, 3, ALL_K, crash=1, tbase=251), K("klist", 3, 3, ALL_K, crash=1, tbase=251), K("ktree", 4, 2, ALL_K, crash=1), M("maptree", 5, ALL_M, crash=1), M("settree", 5, ALL_M, crash=1), M("maplist", 5, ALL_M, crash=1), M("setlist", 5, ALL_M, crash=1),
+    "quick": [SW("bigtree", sys="settree", sizes="500,1023,1024,1025,3000,10000", label="bigtree settree<u32,u32>: 450+ long histories on trees of 500 ... 10000 (thorough 65537) entries, hints 0/1/8/9/1025: fill, thin out to 0/1/10/50/100 %, clear, refill with twice as many, drain"), SW("bigtree", sys="maptree", sizes="500,1023,1024,1025,3000,10000", label="bigtree maptree<u32,u32>: 450+ long histories on trees of 500 ... 10000 (thorough 65537) entries, hints 0/1/8/9/1025: fill, thin out to 0/1/10/50/100 %, clear, refill with twice as many, drain"), F("maptree", ALL_M, crash=1, sparse=1), F("settree", ALL_M, crash=1, sparse=1), M("maptree", 3, ALL_M, crash=1, hint=1000), M("settree", 3, ALL_M, crash=1, hint=1000), K("ktree", 3, 2, ALL_K, crash=1, hint=1000), M("maptree", 3, ALL_M, crash=1, quq=2), M("settree", 3, ALL_M, crash=1, quq=2), K("ktree", 2, 2, ALL_K, crash=1, quq=2), M("maptree", 4, ALL_M, crash=1, pay="track"), M("settree", 4, ALL_M, crash=1, pay="track"), FS(0, 31, "o_query", crash=1), FS(-1000, 3095, "o_query", crash=1), K("ktree", 3, 3, ALL_K, crash=1, tbase=252), K("klist", 3, 3, ALL_K, crash=1, tbase=252), F("maptree", ALL_M, crash=1), F("settree", ALL_M, crash=1), F("ktree", "fl,fle,fleby,get,o_pred,o_get,o_export", crash=1), K("ktree", 3, 3, ALL_K, crash=1, tbase=251), K("klist", 3, 3, ALL_K, crash=1, tbase=251), K("ktree", 4, 2, ALL_K, crash=1), M("maptree", 5, ALL_M, crash=1), M("settree", 5, ALL_M, crash=1), M("maplist", 5, ALL_M, crash=1), M("setlist", 5, ALL_M, crash=1),
               M("maptree", 4, ALL_M, crash=1, hint=0, pay="heap"), M("settree", 4, ALL_M, crash=1, hint=1, pay="bare"), M("maptree", 10, "del,delh,clear,o_handle", mode="shape", crash=1, hint=9), M("settree", 10, "del,delh,clear,o_neigh", mode="shape", crash=1, hint=9), M("settree", 3, ALL_M, crash=1, hint=64),
               K("ktree", 3, 3, ALL_K, crash=1), K("klist", 3, 3, ALL_K, crash=1), K("ktree", 3, 2, ALL_K, crash=1, hint=0), K("ktree", 3, 2, ALL_K, crash=1, hint=64), K("ktree", 8, 0, "fleby,get,clear,o_export", mode="shape", crash=1, hint=9),
               S(0, 16, SA + ",o_query", crash=1), S(0, 31, SA + ",o_query", crash=1), S(-7, 92, SA + ",o_query", crash=1), S(-(1 << 31), (1 << 31) - 1, SA + ",o_query", crash=1),
               SW("layout", lmax=600, all_coords=600, label="layout sweep (constructor and edge coordinates, process outcome only)"), SW("dpairs", lo=0, hi=128, label="all insert x query range pairs on [0,128] (process outcome)"),
               SW("niche", type="key", label="KeyExpTree::new with a key type that has no all-zero value"), SW("niche", type="val", label="KeyExpTree::new with a value type that has no all-zero value"), SW("niche", type="list", label="KeyExpList with the same key type")],
-    "thorough": [F("maptree", ALL_M, crash=1, sparse=1), F("settree", ALL_M, crash=1, sparse=1), M("maptree", 3, ALL_M, crash=1, hint=1000), M("settree", 3, ALL_M, crash=1, hint=1000), K("ktree", 3, 2, ALL_K, crash=1, hint=1000), M("maptree", 14, "del,delh,clear,o_handle", mode="shape", crash=1, cap_s=1500), M("settree", 14, "del,delh,clear,o_neigh", mode="shape", crash=1, hint=9, cap_s=1500), M("maptree", 3, ALL_M, crash=1, quq=2), M("settree", 3, ALL_M, crash=1, quq=2), K("ktree", 2, 2, ALL_K, crash=1, quq=2), M("maptree", 4, ALL_M, crash=1, pay="track"), M("settree", 4, ALL_M, crash=1, pay="track"), FS(0, 31, "o_query", crash=1), FS(-1000, 3095, "o_query", crash=1), K("ktree", 3, 3, ALL_K, crash=1, tbase=252), K("klist", 3, 3, ALL_K, crash=1, tbase=252), F("maptree", ALL_M, crash=1), F("settree", ALL_M, crash=1), F("ktree", "fl,fle,fleby,get,o_pred,o_get,o_export", crash=1), M("maptree", 7, MA + ",o_ref,o_handle,o_hstab", crash=1), M("settree", 7, MA + ",o_ref,o_handle,o_neigh,o_hstab", crash=1), M("maplist", 7, ALL_M, crash=1), M("setlist", 7, ALL_M, crash=1),
+    "thorough": [SW("bigtree", sys="settree", sizes="500,1023,1024,1025,3000,10000,65537", label="bigtree settree<u32,u32>: 450+ long histories on trees of 500 ... 10000 (thorough 65537) entries, hints 0/1/8/9/1025: fill, thin out to 0/1/10/50/100 %, clear, refill with twice as many, drain"), SW("bigtree", sys="maptree", sizes="500,1023,1024,1025,3000,10000,65537", label="bigtree maptree<u32,u32>: 450+ long histories on trees of 500 ... 10000 (thorough 65537) entries, hints 0/1/8/9/1025: fill, thin out to 0/1/10/50/100 %, clear, refill with twice as many, drain"), F("maptree", ALL_M, crash=1, sparse=1), F("settree", ALL_M, crash=1, sparse=1), M("maptree", 3, ALL_M, crash=1, hint=1000), M("settree", 3, ALL_M, crash=1, hint=1000), K("ktree", 3, 2, ALL_K, crash=1, hint=1000), M("maptree", 14, "del,delh,clear,o_handle", mode="shape", crash=1, cap_s=1500), M("settree", 14, "del,delh,clear,o_neigh", mode="shape", crash=1, hint=9, cap_s=1500), M("maptree", 3, ALL_M, crash=1, quq=2), M("settree", 3, ALL_M, crash=1, quq=2), K("ktree", 2, 2, ALL_K, crash=1, quq=2), M("maptree", 4, ALL_M, crash=1, pay="track"), M("settree", 4, ALL_M, crash=1, pay="track"), FS(0, 31, "o_query", crash=1), FS(-1000, 3095, "o_query", crash=1), K("ktree", 3, 3, ALL_K, crash=1, tbase=252), K("klist", 3, 3, ALL_K, crash=1, tbase=252), F("maptree", ALL_M, crash=1), F("settree", ALL_M, crash=1), F("ktree", "fl,fle,fleby,get,o_pred,o_get,o_export", crash=1), M("maptree", 7, MA + ",o_ref,o_handle,o_hstab", crash=1), M("settree", 7, MA + ",o_ref,o_handle,o_neigh,o_hstab", crash=1), M("maplist", 7, ALL_M, crash=1), M("setlist", 7, ALL_M, crash=1),
                  M("maptree", 5, ALL_M, crash=1, hint=0, pay="heap"), M("settree", 6, ALL_M, crash=1, hint=1, pay="bare"), M("maptree", 12, "del,delh,clear,o_handle", mode="shape", crash=1, hint=9), M("settree", 12, "del,delh,clear,o_neigh", mode="shape", crash=1, hint=9), M("settree", 5, ALL_M, crash=1, hint=64),
                  K("ktree", 4, 4, ALL_K, crash=1, cap_s=1200), K("klist", 4, 4, ALL_K, crash=1), K("ktree", 4, 3, ALL_K, crash=1, hint=0), K("ktree", 3, 3, ALL_K, crash=1, mode="full"), K("ktree", 9, 1, "fleby,get,clear,o_export", mode="shape", crash=1, hint=9, cap_s=900),
                  ] + [S(lo, hi, SA + ",o_query", crash=1) for (lo, hi) in DOMAINS_T] + [S(0, (1 << 32) - 1, SA + ",o_query", crash=1, coord="u32"), S(-(1 << 40), (1 << 40) + 5, SA + ",o_query", crash=1, coord="i64"),
